@@ -47,7 +47,9 @@ CLAIMED = {
              "at entry k, open/read error of file k after j bytes, hasher/notify callback error at call k - followed by a fault-free follow-up "
              "transfer into the leftovers. SyncTrace.tla judges: no success without FIN / FIN echo, receive success implies convergence, both "
              "calls return once the stream is torn down (quiescence watchdog, hang confirmed by two goroutine dumps), no goroutine with fsutil "
-             "frames left, follow-up converges.",
+             "frames left, follow-up converges. The algorithm-layer model spec/Protocol.tla (goroutines, bounded channels, errgroups, teardown "
+             "rule, read fault, environment teardown) is model-checked for deadlock freedom after teardown and the success invariants over all "
+             "interleavings of the scaled-down constants; its pinned-code configuration must reproduce the queue() hang.",
         category="fault_enumeration",
         design_ref="DESIGN.md section 6 C04",
         note=_SYNC_NOTE + " SIGKILL of the receiving process is not covered (receiver runs in-process).",
